@@ -17,6 +17,7 @@
 
 #include "alloccap.h"
 #include "blfasm.h"
+#include "blfdefaults.h"
 #include "explore.h"
 #include "memfile.h"
 #include "universe.h"
@@ -157,7 +158,7 @@ static SessionResult session(const std::vector<const Elem *> & seq, const std::v
     cfg.fairness_k = 400;
     cfg.horizon = 400000000;
     cfg.change_at = -1;
-    blfasm::Header hdr;
+    blfasm::Header hdr = library_header_defaults();
     uint32_t counted = 0;
     blfasm::Bytes stream;
     for (size_t i = 0; i < seq.size(); i++) {
@@ -188,17 +189,12 @@ static SessionResult session(const std::vector<const Elem *> & seq, const std::v
     sr.size = file.size();
     g_files++;
     g_distinct.insert(sr.fnv);
-    /* reference assembly (C04/C05 are decided by the Python decoder; this is the cheap in-process cross-check) */
+    /* in-process semantic verification (C04/C05 are decided by the independent Python decoder as well) */
     {
-        blfasm::Bytes want = blfasm::file_bytes(stream, (size_t)cont, (int)level, rp != 0, counted, hdr);
-        if (file != want && stream.size() % (size_t)cont == 0)
-            want = blfasm::file_bytes(stream, (size_t)cont, (int)level, rp != 0, counted, hdr, nullptr, true, true);
-        if (file != want) {
-            size_t d = 0;
-            while (d < file.size() && d < want.size() && file[d] == want[d]) d++;
-            std::string where = d < 144 ? "header" : "containers";
-            report(d < 144 ? "C05" : "C04", "asm-" + where + "|" + label.substr(0, label.find(" lv=")), "file differs from the reference assembly at offset " + std::to_string(d) +
-                   " (" + where + "; sizes " + std::to_string(file.size()) + " vs " + std::to_string(want.size()) + ")", label);
+        std::string bad = blfasm::verify(file, stream, (size_t)cont, (int)level, rp != 0, counted, hdr);
+        if (!bad.empty()) {
+            bool header = bad.find("header") != std::string::npos || bad.find("restorePointsOffset") != std::string::npos;
+            report(header ? "C05" : "C04", std::string(header ? "verify-header|" : "verify-containers|") + label.substr(0, label.find(" lv=")), bad, label);
         }
     }
     if (g_manifest) {
